@@ -327,6 +327,9 @@ pub fn nosep_sites(prog: &Prog) -> Vec<Dev> {
     out
 }
 
+/// pseudo component index of `Dev::LeadZero` meaning "the numeric identifiers of the tag"
+pub const TAG_COMP: usize = 99;
+
 pub const GARBAGE: [&str; 8] = ["foo", "~1.y", "1.2.3.4", "1.2beta4", "x|y", "|", "-", ">="];
 
 fn render_partial(p: &Partial, alt: usize, simple: usize, side: usize, devs: &[Dev]) -> String {
@@ -366,7 +369,14 @@ fn render_partial(p: &Partial, alt: usize, simple: usize, side: usize, devs: &[D
         if !nohyphen {
             s.push('-');
         }
-        s.push_str(&p.pre);
+        // LeadZero with comp == TAG_COMP: every all-digit identifier of the tag is written with a
+        // leading zero (`-01`; npm in loose mode and the crate read it as the number)
+        if devs.iter().any(|d| matches!(d, Dev::LeadZero { alt: a, simple: si, side: sd, comp } if *a == alt && *si == simple && *sd == side && *comp == TAG_COMP)) {
+            let parts: Vec<String> = p.pre.split('.').map(|id| if !id.is_empty() && id.bytes().all(|b| b.is_ascii_digit()) { format!("0{}", id) } else { id.to_string() }).collect();
+            s.push_str(&parts.join("."));
+        } else {
+            s.push_str(&p.pre);
+        }
     }
     if !p.build.is_empty() {
         s.push('+');
@@ -481,6 +491,9 @@ pub fn sites(prog: &Prog) -> Vec<Dev> {
         }
         if p.pre.chars().next().map(|c| c.is_ascii_alphabetic()).unwrap_or(false) {
             out.push(Dev::NoTagHyphen { alt, simple, side });
+        }
+        if p.pre.split('.').any(|id| !id.is_empty() && id.bytes().all(|b| b.is_ascii_digit())) {
+            out.push(Dev::LeadZero { alt, simple, side, comp: TAG_COMP });
         }
     };
     for (ai, alt) in prog.iter().enumerate() {
